@@ -182,47 +182,73 @@ fn run_solve(a: &Args, limits: &Limits, symbolic: bool, initial: &[(String, i64)
     }
 }
 
+/// pseudo-random initial scheduling choices (names s0, s1, ...: the k-th free choice of a run), used to start an
+/// exploration from (or to probe with) a schedule that actually switches workers
+#[cfg(feature = "sched")]
+fn sched_presets(seed: u64) -> Vec<(String, i64)> {
+    let mut r = Rng(seed ^ 0x5c4ed);
+    // switch density varies with the seed so that the few allowed pre-emptions are spread over the run
+    let den = [2u64, 4, 8, 16][(seed % 4) as usize];
+    (0..240).map(|k| (format!("s{}", k), if r.below(den) == 0 { 1 + r.below(2) as i64 } else { 0 })).collect()
+}
+
+#[cfg(feature = "sched")]
+fn par_case(a: &Args, shape: &Shape, fringe: &str, w: &str, th: &str) -> par::ParCase {
+    par::ParCase {
+        shape: shape.clone(),
+        rub: if a.get("rub", "none") == "hslack" { Rub::HSlack } else { Rub::None },
+        nodup: fringe == "nodup",
+        width: w.parse().unwrap(),
+        rev_rank: a.flag("rev"),
+        threads: th.parse().unwrap(),
+        threads_after: a.0.get("threads_after").map(|x| x.parse().unwrap()),
+        max_preempt: a.num("preempt", 1) as u32,
+        map_yield: a.flag("mapyield"),
+        mode: a.get("mode", "plain"),
+        warm: a.num("warm", 0) as usize,
+        kmax: a.num("kmax", 30) as i64,
+        props: a.list("props", ""),
+        seq_steps: a.num("max_steps", 3000),
+    }
+}
+
+#[cfg(feature = "sched")]
+fn par_explore(c: &par::ParCase, ddname: &str, cache: &str, limits: &Limits, eseed: u64, symbolic: bool, initial: &[(String, i64)]) -> Report {
+    macro_rules! go {
+        ($d:ty) => {
+            if cache == "1" {
+                explore(limits, eseed, symbolic, initial, &mut || par::body::<$d, crate::solve::CountingCache>(c))
+            } else {
+                explore(limits, eseed, symbolic, initial, &mut || par::body::<$d, EmptyCache<St>>(c))
+            }
+        };
+    }
+    match ddname {
+        "lel" => go!(Mdd<St, { LAST_EXACT_LAYER }>),
+        "frontier" => go!(Mdd<St, { FRONTIER }>),
+        "pooled" => go!(Pooled<St>),
+        x => panic!("dd={}", x),
+    }
+}
+
 #[cfg(feature = "sched")]
 fn run_par(a: &Args, limits: &Limits, symbolic: bool, initial: &[(String, i64)]) {
     let gp = gen_params(a);
     let shape = Shape::generate(&gp);
-    let rub = if a.get("rub", "none") == "hslack" { Rub::HSlack } else { Rub::None };
+    // eseed: seed of the first path's input values (default: the structure seed); schedinit: first path's schedule
+    let eseed = a.num("eseed", gp.seed);
+    let mut init: Vec<(String, i64)> = if a.0.contains_key("schedinit") { sched_presets(a.num("schedinit", 0)) } else { vec![] };
+    for (k, v) in initial {
+        init.retain(|(n, _)| n != k);
+        init.push((k.clone(), *v));
+    }
     for ddname in a.list("dd", "lel").iter() {
         for cache in a.list("cache", "0").iter() {
             for fringe in a.list("fringe", "simple").iter() {
                 for w in a.list("width", "1").iter() {
                     for th in a.list("threads", "2").iter() {
-                        let c = par::ParCase {
-                            shape: shape.clone(),
-                            rub: rub.clone(),
-                            nodup: fringe == "nodup",
-                            width: w.parse().unwrap(),
-                            rev_rank: a.flag("rev"),
-                            threads: th.parse().unwrap(),
-                            threads_after: a.0.get("threads_after").map(|x| x.parse().unwrap()),
-                            max_preempt: a.num("preempt", 1) as u32,
-                            map_yield: a.flag("mapyield"),
-                            mode: a.get("mode", "plain"),
-                            warm: a.num("warm", 0) as usize,
-                            kmax: a.num("kmax", 30) as i64,
-                            props: a.list("props", ""),
-                            seq_steps: a.num("max_steps", 3000),
-                        };
-                        macro_rules! go {
-                            ($d:ty) => {
-                                if cache == "1" {
-                                    explore(limits, gp.seed, symbolic, initial, &mut || par::body::<$d, crate::solve::CountingCache>(&c))
-                                } else {
-                                    explore(limits, gp.seed, symbolic, initial, &mut || par::body::<$d, EmptyCache<St>>(&c))
-                                }
-                            };
-                        }
-                        let rep = match ddname.as_str() {
-                            "lel" => go!(Mdd<St, { LAST_EXACT_LAYER }>),
-                            "frontier" => go!(Mdd<St, { FRONTIER }>),
-                            "pooled" => go!(Pooled<St>),
-                            x => panic!("dd={}", x),
-                        };
+                        let c = par_case(a, &shape, fringe, w, th);
+                        let rep = par_explore(&c, ddname, cache, limits, eseed, symbolic, &init);
                         let mut case = a.0.clone();
                         case.insert("dd".into(), ddname.clone());
                         case.insert("cache".into(), cache.clone());
@@ -236,6 +262,34 @@ fn run_par(a: &Args, limits: &Limits, symbolic: bool, initial: &[(String, i64)])
             }
         }
     }
+}
+
+/// probe-directed selection for the scheduled runs: (structure seed, try) pairs on which ONE concrete run of the
+/// parallel solver, under pseudo-random costs and a pseudo-random schedule, already violates an obligation
+#[cfg(feature = "sched")]
+fn find_dyn_par(a: &Args) {
+    let (start, count, take, tries) = (a.num("start", 1), a.num("count", 300), a.num("take", 4), a.num("tries", 10));
+    let mut gp = gen_params(a);
+    let lim = Limits { max_paths: 1, max_secs: 5.0, max_violations: 1000 };
+    let mut found = vec![];
+    'seeds: for s in start..start + count {
+        gp.seed = s;
+        let shape = Shape::generate(&gp);
+        let c = par_case(a, &shape, &a.get("fringe", "simple"), &a.get("width", "1"), &a.get("threads", "2"));
+        for t in 0..tries {
+            let e = s * 1000 + t;
+            let rep = par_explore(&c, &a.get("dd", "lel"), &a.get("cache", "0"), &lim, e, false, &sched_presets(e));
+            if !rep.violations.is_empty() {
+                eprintln!("seed {} try {}: {}", s, t, rep.violations.iter().map(|v| v.label.clone()).collect::<Vec<_>>().join(" "));
+                found.push(format!("{}:{}", s, e));
+                if found.len() as u64 >= take {
+                    break 'seeds;
+                }
+                break;
+            }
+        }
+    }
+    println!("{}", found.join(","));
 }
 
 fn run_cont(a: &Args, limits: &Limits, symbolic: bool, initial: &[(String, i64)]) {
@@ -335,6 +389,8 @@ fn main() {
         "fringe" | "cache" | "dominance" | "domorder" | "cacheconc" | "domconc" => run_cont(&a, &limits, symbolic, &initial),
         #[cfg(feature = "sched")]
         "par" => run_par(&a, &limits, symbolic, &initial),
+        #[cfg(feature = "sched")]
+        "finddynpar" => find_dyn_par(&a),
         "find" => {
             // list seeds start..start+count whose structure has all the wanted static features
             let wantf = a.list("features", "");
